@@ -7,6 +7,22 @@
    ratio index; [liq_cut p liq] is 1/(p/liq) as LiquidateCdps computes it. *)
 From Kava Require Import Base.Prelude Base.Dec Model.Cdp Proofs.CdpRatio Proofs.Cdp.
 
+(** witness environment and genesis state used by the refutations and examples below *)
+Definition w_env : env :=
+  mkEnv 4 5 4 [mkCP 0 1500000000000000000 100000000000000 1000000001547125958 10000000 50000000000000000 0 1 10000000000000000 10 8;
+               mkCP 0 1500000000000000000 100000000000000 1000000001547125958 10000000 50000000000000000 0 1 10000000000000000 10 8;
+               mkCP 4 1500000000000000000 100000000000000 1000000001547125958 10000000 50000000000000000 2 3 10000000000000000 10 6]
+        3 1 2 6 1 400000000000000 500000000000 10000000000 100000000000 10000000000 1.
+Definition w_s0 : state :=
+  mk_state [[100000000000000; 0; 1000000000; 2000000000000; 100000000000000]; [100000000000000; 0; 1000000000; 2000000000000; 100000000000000];
+            [100000000000000; 0; 1000000000; 2000000000000; 100000000000000]; [100000000000000; 0; 1000000000; 2000000000000; 100000000000000];
+            [0; 0; 0; 0; 0]; [0; 0; 0; 0; 0]; [0; 0; 0; 0; 0]]
+           [400000000000000; 0; 100004001000000; 8000000000000; 400000000000000]
+           [17250000000000000000; 17250000000000000000; 500000000000000000; 500000000000000000] [true; true; true; true]
+           [1000000000000000000; 1000000000000000000; 1000000000000000000]
+           [1704067200000000000; 1704067200000000000; 1704067200000000000] 1 1704067200000000000 1.
+Definition w_s1 : state := run w_env w_s0 [Create 0 2 4 30000000 3 10000000].
+
 (** ** Users cannot go below the ratio *)
 
 (* A successful draw leaves the stored cdp at or above the liquidation ratio at the spot price. *)
@@ -85,6 +101,17 @@ Proof.
 Qed.
 Print Assumptions C05_pricefeed_gate_draw_partial.
 
+(* ... but it is NOT refused while the liquidation-market feed of the collateral is down, although
+   create, deposit and withdraw are: after a block in which the liquidation market lost its price the
+   status flag of that market is down, a deposit is refused and a draw succeeds. *)
+Theorem C05_pricefeed_gate_draw_refuted :
+  let s1 := run w_env w_s0 [Create 0 2 4 40000000 3 10000003; Block 1000000000 [(3%nat, 0)]] in
+  mstat s1 2 = true /\ mstat s1 3 = false /\
+  step w_env s1 (Deposit 0 0 2 4 5) = Err /\
+  (match step w_env s1 (Draw 0 2 3 5) with Ok _ _ => True | _ => False end).
+Proof. vm_compute. repeat split; reflexivity. Qed.
+Print Assumptions C05_pricefeed_gate_draw_refuted.
+
 (** ** Keeper liquidation only below the ratio *)
 Theorem C05_keeper_liq_only_below :
   forall e s k o t s' v, keeper_liquidate e s k o t = Ok s' v ->
@@ -123,20 +150,6 @@ Print Assumptions C05_block_liq_only_below_partial.
 (* The statement without slack is false: price 0.5, liquidation ratio 1.5, collateral 30 000 000,
    debt 10 000 000 (conversion factors 6/6): the cdp is created at exactly 150 %, keeper
    liquidation is refused (ratio not below), and the next begin blocker seizes it. *)
-Definition w_env : env :=
-  mkEnv 4 5 4 [mkCP 0 1500000000000000000 100000000000000 1000000001547125958 10000000 50000000000000000 0 1 10000000000000000 10 8;
-               mkCP 0 1500000000000000000 100000000000000 1000000001547125958 10000000 50000000000000000 0 1 10000000000000000 10 8;
-               mkCP 4 1500000000000000000 100000000000000 1000000001547125958 10000000 50000000000000000 2 3 10000000000000000 10 6]
-        3 1 2 6 1 400000000000000 500000000000 10000000000 100000000000 10000000000 1.
-Definition w_s0 : state :=
-  mk_state [[100000000000000; 0; 1000000000; 2000000000000; 100000000000000]; [100000000000000; 0; 1000000000; 2000000000000; 100000000000000];
-            [100000000000000; 0; 1000000000; 2000000000000; 100000000000000]; [100000000000000; 0; 1000000000; 2000000000000; 100000000000000];
-            [0; 0; 0; 0; 0]; [0; 0; 0; 0; 0]; [0; 0; 0; 0; 0]]
-           [400000000000000; 0; 100004001000000; 8000000000000; 400000000000000]
-           [17250000000000000000; 17250000000000000000; 500000000000000000; 500000000000000000] [true; true; true; true]
-           [1000000000000000000; 1000000000000000000; 1000000000000000000]
-           [1704067200000000000; 1704067200000000000; 1704067200000000000] 1 1704067200000000000 1.
-Definition w_s1 : state := run w_env w_s0 [Create 0 2 4 30000000 3 10000000].
 
 Theorem C05_block_liq_only_below_refuted :
   inv_b w_env 8000000000000 w_s1 = true /\
